@@ -76,6 +76,7 @@ class Check(object):
         self._open = {f['signature']: f for f in self.findings if f.get('status', 'open') == 'open'}
         self._sample_budget = {}
         self.replay_only = None
+        self._cleaned = False
 
     # ------------------------------------------------------------------ TLC
     def tlc(self, module, cfg, part=None, **kw):
@@ -115,6 +116,12 @@ class Check(object):
         what : one-line human description
         case : JSON-able dict sufficient to re-run exactly this case (--replay)
         """
+        if not self._cleaned and self.replay_only is None:
+            # replay files of earlier runs of this property are obsolete
+            import glob
+            for old in glob.glob(os.path.join(REPLAY, '%s-*.json' % self.prop)):
+                os.remove(old)
+            self._cleaned = True
         if sig in self._open:
             c = self.known_hit.get(sig, 0)
             self.known_hit[sig] = c + 1
